@@ -16,7 +16,7 @@ var c05Opts = bridge.GenOpts{
 	MaxVals:     5,
 	Denoms:      3,
 	Holders:     true,
-	Weights:     map[string]int{"burst": 3},
+	Weights:     map[string]int{"burst": 3, "hostile": 10},
 }
 
 func TestC05(t *testing.T) {
@@ -30,8 +30,8 @@ func TestC05(t *testing.T) {
 			it := bridge.NewInterp(c, "C05")
 			it.NoHash = true
 			f := it.Run()
-			rec.NonTrivial = it.Stats["op:burst"] > 0 || it.Stats["exec-batch"] > 0
-			labelStats(rec, it, "op:burst", "exec-batch", "handler-panic", "exec-valset")
+			rec.NonTrivial = it.Stats["op:burst"] > 0 || it.Stats["exec-batch"] > 0 || it.Stats["hostile-event"] > 0
+			labelStats(rec, it, "op:burst", "exec-batch", "handler-panic", "exec-valset", "hostile-event")
 			if it.FailedProp() != "" {
 				rec.Label("stopped-by:" + it.FailedKey())
 			}
